@@ -17,8 +17,22 @@ Ltac fin := repeat match goal with
 
 (* ---- (a) the tables ---- *)
 Lemma mul_table_matches_doc : forall w b p clip,
-  erase (observed_mul (St w b) p clip) = tdoc w (doc_mul w p).
+  erase (observed_mul (St w b) p clip false) = tdoc w (doc_mul w p).
 Proof. intros; fin; reflexivity. Qed.
+
+(* a cell the table forbids is refused with TypeError whatever the sampling of the two operands *)
+Lemma forbidden_cell_is_TypeError : forall w b p clip mism,
+  doc_mul w p = None -> observed_mul (St w b) p clip mism = Raises ETypeError (St w b).
+Proof. intros w b p clip mism H; fin; cbn in H; try discriminate H; reflexivity. Qed.
+
+Lemma forbidden_class_cell_is_TypeError : forall k po clip mism w b,
+  op_claimed (MulClass k po clip mism) = true -> doc_mul w (eff_ptype k po) = None ->
+  observed_class_mul k po clip mism (St w b) = Raises ETypeError (St w b).
+Proof.
+  intros k po clip mism w b C H.
+  destruct k, po as [[]|]; cbn in C; try discriminate C;
+    destruct w; cbn in H; try discriminate H; destruct clip, mism, b; reflexivity.
+Qed.
 
 Lemma propagation_matches_doc : forall m w b, b <> Tilted ->
   erase (observed_prop m (St w b)) = tdoc w (doc_prop m w).
@@ -48,17 +62,26 @@ Qed.
 (* ---- one step ---- *)
 Lemma step_follows_doc : forall s o, op_claimed o = true -> step observed s o = step documented s o.
 Proof.
-  intros s o H. destruct o as [p clip | k po clip | m | s'].
+  intros s o H. destruct o as [p clip mism | k po clip mism | m | s'].
   - fin; reflexivity.
   - fin; try discriminate H; reflexivity.
   - fin; reflexivity.
   - reflexivity.
 Qed.
 
+Definition wstate_eqb (a b : wstate) : bool :=
+  wtype_eqb (ty a) (ty b) &&
+  match body a, body b with Plain, Plain | Tilted, Tilted | Empty, Empty => true | _, _ => false end.
+Lemma wstate_eqb_eq : forall a b, wstate_eqb a b = true -> a = b.
+Proof. intros [[] []] [[] []] H; try discriminate H; reflexivity. Qed.
+Definition kept_ok (x : outcome) (s : wstate) : bool :=
+  match x with Raises _ k => wstate_eqb k s | Yields _ => true end.
+Lemma kept_ok_all : forall s (o : op cls), kept_ok (step observed s o) s = true.
+Proof. intros s o. destruct o as [p clip mism | c po clip mism | m | s']; fin; reflexivity. Qed.
+
 Lemma refused_step_keeps_state : forall s (o : op cls) e k, step observed s o = Raises e k -> k = s.
 Proof.
-  intros s o e k H. destruct o as [p clip | c po clip | m | s']; [| | | discriminate H];
-    fin; cbn in H; try discriminate H; inversion H; reflexivity.
+  intros s o e k H. pose proof (kept_ok_all s o) as K. rewrite H in K. apply wstate_eqb_eq. exact K.
 Qed.
 
 (* ---- (b) programs: induction over the op list ---- *)
@@ -86,52 +109,58 @@ Qed.
 
 (* the content influences nothing but propagate_fft: without that routine the types follow the
    three tables read on types alone *)
-Lemma step_types : forall s o, op_claimed o = true -> is_fft o = false ->
+Lemma step_types : forall s o, op_claimed o = true -> consistent o = true -> is_fft o = false ->
   erase (step observed s o) = tstep (ty s) o /\ ty (next (step observed s o)) = tnext (tstep (ty s) o).
 Proof.
-  intros s o H F. destruct o as [p clip | k po clip | m | s'].
-  - fin; split; reflexivity.
-  - fin; try discriminate H; split; reflexivity.
+  intros s o H K F. destruct o as [p clip mism | k po clip mism | m | s'].
+  - destruct mism; [discriminate K|]. fin; split; reflexivity.
+  - destruct mism; [discriminate K|]. fin; try discriminate H; split; reflexivity.
   - fin; try discriminate F; split; reflexivity.
   - split; reflexivity.
 Qed.
 
 Lemma program_types_follow_tables : forall ops s,
-  forallb op_claimed ops = true -> forallb (fun o => negb (is_fft o)) ops = true ->
+  forallb op_claimed ops = true -> forallb consistent ops = true ->
+  forallb (fun o => negb (is_fft o)) ops = true ->
   map erase (run_program observed s ops) = run_types (ty s) ops.
 Proof.
-  induction ops as [| o rest IH]; intros s H F; [reflexivity|].
-  cbn in H, F. apply andb_prop in H. destruct H as [Ho Hr].
+  induction ops as [| o rest IH]; intros s H K F; [reflexivity|].
+  cbn in H, K, F. apply andb_prop in H. destruct H as [Ho Hr].
+  apply andb_prop in K. destruct K as [Ko Kr].
   apply andb_prop in F. destruct F as [Fo Fr]. apply negb_true_iff in Fo.
-  destruct (step_types s o Ho Fo) as [E N].
+  destruct (step_types s o Ho Ko Fo) as [E N].
   cbn [run_program run_types map]. rewrite E. f_equal.
-  rewrite (IH _ Hr Fr). rewrite N. reflexivity.
+  rewrite (IH _ Hr Kr Fr). rewrite N. reflexivity.
 Qed.
 
 (* with propagate_fft too, as long as the program starts without tilt and no step attaches one *)
-Lemma step_types_untilted : forall s o, op_claimed o = true -> untilting o = true -> tilted s = false ->
+Lemma step_types_untilted : forall s o, op_claimed o = true -> consistent o = true ->
+  untilting o = true -> tilted s = false ->
   erase (step observed s o) = tstep (ty s) o /\
   ty (next (step observed s o)) = tnext (tstep (ty s) o) /\
   tilted (next (step observed s o)) = false.
 Proof.
-  intros s o H U T. destruct o as [p clip | k po clip | m | s'].
-  - fin; try discriminate T; repeat split; reflexivity.
-  - fin; try discriminate H; try discriminate T; try discriminate U; repeat split; reflexivity.
+  intros s o H K U T. destruct o as [p clip mism | k po clip mism | m | s'].
+  - destruct mism; [discriminate K|]. fin; try discriminate T; repeat split; reflexivity.
+  - destruct mism; [discriminate K|].
+    fin; try discriminate H; try discriminate T; try discriminate U; repeat split; reflexivity.
   - fin; try discriminate T; repeat split; reflexivity.
   - unfold untilting in U. cbn in U. repeat rewrite andb_true_r in U.
     repeat split. cbn. destruct (tilted s'); [discriminate U | reflexivity].
 Qed.
 
 Lemma untilted_program_types_follow_tables : forall ops s,
-  forallb op_claimed ops = true -> forallb untilting ops = true -> tilted s = false ->
+  forallb op_claimed ops = true -> forallb consistent ops = true ->
+  forallb untilting ops = true -> tilted s = false ->
   map erase (run_program observed s ops) = run_types (ty s) ops.
 Proof.
-  induction ops as [| o rest IH]; intros s H U T; [reflexivity|].
-  cbn in H, U. apply andb_prop in H. destruct H as [Ho Hr].
+  induction ops as [| o rest IH]; intros s H K U T; [reflexivity|].
+  cbn in H, K, U. apply andb_prop in H. destruct H as [Ho Hr].
+  apply andb_prop in K. destruct K as [Ko Kr].
   apply andb_prop in U. destruct U as [Uo Ur].
-  destruct (step_types_untilted s o Ho Uo T) as [E [N T']].
+  destruct (step_types_untilted s o Ho Ko Uo T) as [E [N T']].
   cbn [run_program run_types map]. rewrite E. f_equal.
-  rewrite (IH _ Hr Ur T'). rewrite N. reflexivity.
+  rewrite (IH _ Hr Kr Ur T'). rewrite N. reflexivity.
 Qed.
 
 (* ---- (c) the documented classes ---- *)
@@ -139,7 +168,7 @@ Definition class_applies (k : cls) (p : ptype) : Prop :=
   observed_class_ptype k = p /\
   (exists w, doc_mul w p <> None) /\
   (forall w t b clip, doc_mul w p = Some t ->
-     exists b', observed_class_mul k None clip (St w b) = Yields (St t b')).
+     exists b', observed_class_mul k None clip false (St w b) = Yields (St t b')).
 
 Lemma documented_classes_apply_partial : forall k p,
   doc_class_ptype k = Some p -> known_broken k = false -> class_applies k p.
@@ -153,7 +182,7 @@ Qed.
 
 Lemma rotate_flip_refuted : forall k, known_broken k = true ->
   doc_class_ptype k = Some PTransform /\ observed_class_ptype k = PNone /\
-  forall clip s, observed_class_mul k None clip s = Raises EAttributeError s.
+  forall clip mism s, observed_class_mul k None clip mism s = Raises EAttributeError s.
 Proof.
   intros k B. destruct k; cbn in B; try discriminate B; repeat split; intros; fin; reflexivity.
 Qed.
@@ -170,4 +199,4 @@ Qed.
 
 Lemma programs_with_rotate_refuted :
   exists s ops, run_program observed s ops <> run_program documented s ops.
-Proof. exists (St WPupil Plain), [MulClass KRotate None false]. cbn. discriminate. Qed.
+Proof. exists (St WPupil Plain), [MulClass KRotate None false false]. cbn. discriminate. Qed.
